@@ -168,6 +168,36 @@ Proof.
 Qed.
 Print Assumptions c01_noise_undisturbed_and_prologue.
 
+(* no payload, no identity: a remote that completes Noise XX correctly but sends a
+   ZERO-LENGTH libp2p payload (or bytes that are not a NoiseHandshakePayload) in message 2
+   or message 3 is refused by handleRemoteHandshakePayload — for every endpoint
+   configuration (check on or off, any expected peer) and every remote static key;
+   by c01_noise_remote_is_signer_* a completed endpoint has always passed this function
+   on the payload of THE message it read at stage 1 (initiator) / stage 2 (responder),
+   so "message without payload" is never a way around the identity proof *)
+Theorem c01_noise_no_payload_no_identity : forall p remote_static,
+  handle_payload p NEmpty remote_static = inr E_KEY /\
+  (forall n, handle_payload p (NJunk n) remote_static = inr E_KEY).
+Proof. intros p rs. split; [reflexivity | intros n; reflexivity]. Qed.
+Print Assumptions c01_noise_no_payload_no_identity.
+
+(* ... and in the scenario language: whatever the victim's role, transport kind,
+   expected-peer setting and prologue, and whether or not the malicious initiator
+   already put a valid payload into message 1, the endpoint that receives a payload
+   with the identity key omitted, a zero-length payload or a non-protobuf payload fails *)
+Theorem c01_noise_omitted_payload_aborts : forall sc f,
+  wf_scenario sc = true -> sc_forge sc = Some f ->
+  f_claim f = ClNoPayload \/ f_claim f = ClNotProto \/ f_claim f = ClEmpty ->
+  failed (side_res (fst (run_scenario sc)) (negb (f_init f))) = true.
+Proof.
+  intros sc f Hwf Hf Hc.
+  apply (c01_noise_mitm_edit_aborts sc (negb (f_init f)) Hwf). right.
+  unfold received_forged. rewrite Hf.
+  replace (Bool.eqb (f_init f) (negb (f_init f))) with false by (destruct (f_init f); reflexivity).
+  unfold forge_is_honest. destruct Hc as [-> | [-> | ->]]; reflexivity.
+Qed.
+Print Assumptions c01_noise_omitted_payload_aborts.
+
 (* a panic anywhere in runHandshake is an error outcome: an endpoint that
    completes has passed every stage on its path (its Reads and Writes on the
    insecure connection, the early-data handler's Send and Received) without a
@@ -500,3 +530,32 @@ Proof. vm_compute. discriminate. Qed.
 Example monitor_rejects_id_of_bytes :
   monitor_case [1; 0;0; 3;1;1;0;0; 2;0;0;0;0; 0;0;0;0;0; 1;1;13;3;0; 0;0;0;0; 1; 9;0;0; 0;9;3]%Z <> [].
 Proof. vm_compute. discriminate. Qed.
+
+(* zero-length payload (a remote that runs plain Noise XX with its own static key): the model's
+   initiator and responder fail with a key/payload error, also when message 1 already carried a valid payload *)
+Example zero_length_payload_is_refused :
+  let scI := mkSc (mkSide KA false false (Some KB) P0) (mkSide KE true true None P0) ENone
+                  (Some (mkForge false ClNoPayload FsEmpty false)) None in
+  let scR := mkSc (mkSide KE true true None P0) (mkSide KB false false None P0) ENone
+                  (Some (mkForge true ClNoPayload FsEmpty true)) None in
+  wf_scenario scI = true /\ wf_scenario scR = true /\
+  obs_of_res (fst (fst (run_scenario scI))) = mkObs 3 0 0 /\
+  obs_of_res (snd (fst (run_scenario scR))) = mkObs 3 0 0.
+Proof. vm_compute. repeat split; reflexivity. Qed.
+
+(* the monitor rejects: an initiator that dialled B, got a zero-length payload in message 2 and "completed"
+   reporting B with no public key; a responder that got a zero-length payload in message 3 and completed
+   with remote peer "" *)
+Example monitor_rejects_completion_without_payload_initiator :
+  monitor_case [1; 0;0; 1;0;0;2;0; 3;1;1;0;0; 0;0;0;0;0; 1;0;6;5;0; 0;0;0;0; 1; 0;2;0; 9;0;0]%Z <> [].
+Proof. vm_compute. discriminate. Qed.
+Example monitor_rejects_completion_without_payload_responder :
+  monitor_case [1; 0;0; 3;1;1;0;0; 2;0;0;0;0; 0;0;0;0;0; 1;1;6;5;0; 0;0;0;0; 1; 9;0;0; 0;0;0]%Z <> [].
+Proof. vm_compute. discriminate. Qed.
+
+(* the monitor rejects an initiator (Ed25519) that named E — an RSA identity, whose ID is the hash of the
+   key — and completed with the Ed25519 peer B that answered; likewise a responder that named E (ECDSA) *)
+Example monitor_rejects_hashed_id_expectation_ignored :
+  monitor_case [1; 40;0; 1;0;0;3;0; 2;0;0;0;0; 0;0;0;0;0; 0;0;0;0;0; 0;0;0;0; 1; 0;2;2; 0;1;1]%Z <> [] /\
+  monitor_case [1; 2;23; 1;0;0;2;0; 2;1;0;3;0; 0;0;0;0;0; 0;0;0;0;0; 0;0;0;0; 1; 0;2;2; 0;1;1]%Z <> [].
+Proof. vm_compute. split; discriminate. Qed.
